@@ -33,6 +33,12 @@ type region struct {
 	fd     *ast.FuncDecl
 	callPt Point // the call node in the caller (first node of the continuation block)
 	parent *region
+	rets   []retInfo // the helper's return sites (result expressions, evaluated at pt)
+}
+
+type retInfo struct {
+	results []ast.Expr
+	pt      Point
 }
 
 // Point = position just before node I of block B (I == len(B.Nodes) means block end).
@@ -540,6 +546,14 @@ func (f *FuncCFG) paramArg(obj types.Object, pt Point) (ast.Expr, Point, bool) {
 // single reaching definitions to the expression it stands for.
 func (f *FuncCFG) Resolve(e ast.Expr, pt Point) (ast.Expr, Point) {
 	for steps := 0; steps < 12; steps++ {
+		if c, isCall := ast.Unparen(e).(*ast.CallExpr); isCall {
+			// the value of an expanded helper with a single return site is what it returns
+			if reg := f.regionByCall(c); reg != nil && len(reg.rets) == 1 && len(reg.rets[0].results) == 1 {
+				e, pt = reg.rets[0].results[0], reg.rets[0].pt
+				continue
+			}
+			break
+		}
 		id, ok := ast.Unparen(e).(*ast.Ident)
 		if !ok {
 			break
@@ -553,8 +567,13 @@ func (f *FuncCFG) Resolve(e ast.Expr, pt Point) (ast.Expr, Point) {
 		}
 		defs, fromEntry := f.ReachingDefs(pt, obj)
 		if len(defs) == 1 && !fromEntry {
-			if _, isCall := ast.Unparen(defs[0].Rhs).(*ast.CallExpr); isCall && !pureExpr(f.Info, defs[0].Rhs) {
-				// a value produced by a call: the call is what it stands for
+			if c, isCall := ast.Unparen(defs[0].Rhs).(*ast.CallExpr); isCall && !pureExpr(f.Info, defs[0].Rhs) {
+				// a value produced by a call: the call is what it stands for (unless the call is
+				// an expanded single-return helper, handled at the top of the loop)
+				if reg := f.regionByCall(c); reg != nil && len(reg.rets) == 1 && len(reg.rets[0].results) == 1 {
+					e, pt = defs[0].Rhs, defs[0].At
+					continue
+				}
 				return defs[0].Rhs, defs[0].At
 			}
 			e, pt = defs[0].Rhs, defs[0].At
@@ -563,6 +582,14 @@ func (f *FuncCFG) Resolve(e ast.Expr, pt Point) (ast.Expr, Point) {
 		if len(defs) == 0 {
 			if arg, cpt, ok := f.paramArg(obj, pt); ok {
 				e, pt = arg, cpt
+				continue
+			}
+			// a variable of the enclosing function captured by this closure, assigned once
+			if rhs, ok := singleDef[obj]; ok && (obj.Pos() < f.Body.Pos() || obj.Pos() > f.Body.End()) {
+				if _, isCall := ast.Unparen(rhs).(*ast.CallExpr); isCall && !pureExpr(f.Info, rhs) {
+					return rhs, pt
+				}
+				e = rhs
 				continue
 			}
 		}
@@ -577,6 +604,11 @@ func (f *FuncCFG) Resolve(e ast.Expr, pt Point) (ast.Expr, Point) {
 func (f *FuncCFG) KeyAt(e ast.Expr, pt Point) string { return f.keyAt(e, pt, 6) }
 
 func (f *FuncCFG) keyAt(e ast.Expr, pt Point, depth int) string {
+	if _, isCall := ast.Unparen(e).(*ast.CallExpr); isCall && depth > 0 {
+		if re, rpt := f.Resolve(e, pt); re != e {
+			return f.keyAt(re, rpt, depth-1)
+		}
+	}
 	type saved struct {
 		n   ast.Node
 		old string
@@ -1204,6 +1236,7 @@ func (f *FuncCFG) expand(depth int, onStack map[*types.Func]bool) {
 					if k := len(cb.Nodes); k > 0 {
 						if rs, ok := cb.Nodes[k-1].(*ast.ReturnStmt); ok {
 							nodes := append([]ast.Node{}, cb.Nodes[:k-1]...)
+							reg.rets = append(reg.rets, retInfo{rs.Results, Point{cb, len(nodes)}})
 							for _, res := range rs.Results {
 								nodes = append(nodes, res)
 							}
@@ -1351,4 +1384,17 @@ func callableBody(p *Prog, info *types.Info, e ast.Expr) (*ast.BlockStmt, token.
 		}
 	}
 	return nil, token.NoPos
+}
+
+func (f *FuncCFG) regionByCall(c *ast.CallExpr) *region {
+	seen := map[*region]bool{}
+	for _, reg := range f.regionOf {
+		for r := reg; r != nil && !seen[r]; r = r.parent {
+			seen[r] = true
+			if r.call == c {
+				return r
+			}
+		}
+	}
+	return nil
 }
